@@ -317,8 +317,9 @@ class _RecordingDict(dict):
 
 
 class _AsyncResult:
-    def __init__(self, func, args, kwds):
+    def __init__(self, func, args, kwds, pool=None):
         self.func, self.args, self.kwds = func, tuple(args), dict(kwds or {})
+        self.pool = pool
 
     def _label(self):
         ctl = current()
@@ -347,9 +348,19 @@ class _AsyncResult:
         ctl = current()
         label = self._label()
         ctl.sched_point("pool-get:" + label)
+        pool = self.pool
+        if pool is not None and pool.abandoned >= pool.workers:
+            # every worker thread of THIS pool object is still occupied by a job that was
+            # abandoned after a timeout: a job submitted to it cannot start
+            ctl.log.append("pool {} -> starved (all workers of its pool are abandoned)".format(label))
+            if timeout is None:
+                raise HarnessError("blocking wait on a thread pool whose workers are all abandoned: " + label)
+            raise multiprocessing.TimeoutError()
         alts = ctl.pool_alts if timeout is not None else ("complete",)
         alt = alts[ctl.choose("pool", label, len(alts))]
         ctl.log.append("pool {} -> {}".format(label, alt))
+        if alt == "timeout" and pool is not None:
+            pool.abandoned += 1  # the job never finishes within the run
         if alt == "complete":
             ctl.job_stack.append(label)
             try:
@@ -383,11 +394,15 @@ class _AsyncResult:
 
 
 class ControlledThreadPool:
+    """Model of multiprocessing.pool.ThreadPool: `workers` threads; a job whose wait timed
+    out keeps its worker (terminate() does not stop a running thread)."""
+
     def __init__(self, processes=None, *a, **k):
-        pass
+        self.workers = processes if processes else (os.cpu_count() or 1)
+        self.abandoned = 0
 
     def apply_async(self, func, args=(), kwds=None, callback=None, error_callback=None):
-        return _AsyncResult(func, args, kwds)
+        return _AsyncResult(func, args, kwds, pool=self)
 
     def terminate(self):
         pass
